@@ -239,7 +239,10 @@ func c08Case(w *core.Worker, i int) {
 	// every other case runs with poison-on-discard: a value handed back to the allocator although a table cell or a
 	// variable still refers to it shows up at once instead of after the next allocation
 	verifhook.SetPoison(i%2 == 1)
-	defer verifhook.SetPoison(false)
+	defer func() {
+		verifhook.SetPoison(false)
+		verifhook.TakeDiscardStats(true) // (the registry keeps every discarded object alive until it is reset)
+	}()
 	dirty := false
 	switch state {
 	case "selected":
